@@ -69,6 +69,10 @@ pub struct Enc<'a> {
     /// called for every deduplicated string: true = write it in full even if it is already known (a freedom of the
     /// format that the Scala writer uses; this library's writer never does)
     pub dedup_full: Option<&'a mut dyn FnMut() -> bool>,
+    /// called at every tuple position (map entries included): n > 0 = write the tuple the way a writer n evolution steps
+    /// ahead would (version byte n, header with the size of chunk 0 and n later entries, chunks the reader knows nothing
+    /// about after chunk 0) — tuples are records, and a record of a newer version must stay readable
+    pub tuple_newer: Option<&'a mut dyn FnMut() -> u32>,
 }
 
 impl<'a> Enc<'a> {
@@ -80,6 +84,7 @@ impl<'a> Enc<'a> {
             quirks: Quirks::default(),
             unknown_form: None,
             dedup_full: None,
+            tuple_newer: None,
         }
     }
 
@@ -267,6 +272,34 @@ impl<'a> Enc<'a> {
             },
             Ty::Tuple(ts) => match v {
                 Val::Tuple(xs) if xs.len() == ts.len() => {
+                    let newer = match self.tuple_newer.as_mut() {
+                        Some(f) => f().min(200),
+                        None => 0,
+                    };
+                    if newer > 0 {
+                        let saved = std::mem::take(&mut self.out);
+                        let mut r = Ok(());
+                        for (t, x) in ts.iter().zip(xs) {
+                            r = self.encode(t, x);
+                            if r.is_err() {
+                                break;
+                            }
+                        }
+                        let chunk0 = std::mem::replace(&mut self.out, saved);
+                        r?;
+                        self.out.push(newer as u8);
+                        let n0 = Self::len_i32(chunk0.len())?;
+                        self.vi(n0);
+                        let junk: Vec<usize> = (0..newer as usize).map(|j| (chunk0.len() + 3 * j + 1) % 5).collect();
+                        for &n in &junk {
+                            self.vi(n as i32); // 0 = a step this reader cannot know, n = a chunk of n bytes
+                        }
+                        self.out.extend_from_slice(&chunk0);
+                        for &n in &junk {
+                            self.out.extend(std::iter::repeat(0xEE).take(n));
+                        }
+                        return Ok(());
+                    }
                     if !(ts.len() == 1 && self.quirks.tuple1_without_version) {
                         self.out.push(0);
                     }
@@ -456,7 +489,16 @@ impl<'a> Enc<'a> {
             let e = match s {
                 Step::Added(_) => Entry::Size(k),
                 Step::MadeOptional(name) => {
-                    if let Some(f) = written.iter().find(|f| &f.name == name) {
+                    // a later removal of that name means this step spoke about a field that is gone (the name may have
+                    // come back since: that is another field)
+                    let removed_later = schema.steps[i + 1..].iter().any(|t| match t {
+                        Step::Removed(n) => n == name,
+                        Step::MadeTransient(n) => n == name && !self.quirks.made_optional_then_transient_fails,
+                        _ => false,
+                    });
+                    if removed_later {
+                        Entry::NamePending(name.clone())
+                    } else if let Some(f) = written.iter().find(|f| &f.name == name) {
                         let gen = schema.generation(&f.name);
                         let pos = written
                             .iter()
@@ -536,6 +578,20 @@ impl<'a> Enc<'a> {
 
 pub fn ref_encode(ty: &Ty, v: &Val) -> Result<Vec<u8>, EncErr> {
     let mut e = Enc::new();
+    e.encode(ty, v)?;
+    Ok(e.out)
+}
+
+/// sequence positions draw their form from `choose`, tuple positions their writer's version from `newer`
+pub fn ref_encode_newer_tuples(
+    ty: &Ty,
+    v: &Val,
+    choose: &mut dyn FnMut() -> bool,
+    newer: &mut dyn FnMut() -> u32,
+) -> Result<Vec<u8>, EncErr> {
+    let mut e = Enc::new();
+    e.unknown_form = Some(choose);
+    e.tuple_newer = Some(newer);
     e.encode(ty, v)?;
     Ok(e.out)
 }
